@@ -129,6 +129,7 @@ type slot struct {
 	ckpts map[uint64]*task
 	waits map[uint64]func() (recovery.CheckpointHandle, error)
 	nb    *neighbour
+	op    *operator.Operator // script "op": the real operator object answering NeedsTable for this database (deployed while live, a fresh not deployed one after a crash)
 	lo    int
 	hi    int // 0 = owns every key
 	ids   map[uint64]bool // checkpoint ids in its list
@@ -432,16 +433,56 @@ func (n *neighbour) NeedsTable(ctx context.Context, uri string) (bool, error) {
 		return true, nil
 	case sc == "err":
 		return false, errors.New("neighbour unreachable")
-	case sc == "live":
-		// the truthful answer of every other live database object (all operators are each other's neighbours)
+	case sc == "op":
+		// the other operators of the assembly, asked through the real Operator.HandleNeedsTable behind an RPC: a handler that
+		// panics produces no answer, the caller sees an error
+		var firstErr error
 		for _, o := range n.w.slots {
-			if o != n.owner && o.state == "live" && o.db != nil && o.db.NeedsTable(uri) {
+			if o == n.owner || o.nb == nil || strings.TrimPrefix(o.nb.script, "slow-") != "op" || o.op == nil {
+				continue
+			}
+			needed, err := rpcNeedsTable(o.op, uri)
+			if needed {
 				return true, nil
 			}
+			if err != nil && firstErr == nil {
+				firstErr = err
+			}
 		}
-		return false, nil
+		return false, firstErr
+	case sc == "live":
+		// the truthful answer of every other live database object (all operators are each other's neighbours)
+		var gone error
+		for _, o := range n.w.slots {
+			if o == n.owner {
+				continue
+			}
+			if o.state == "live" && o.db != nil && o.db.NeedsTable(uri) {
+				return true, nil
+			}
+			if o.state == "crashed" && o.nb != nil && strings.TrimPrefix(o.nb.script, "slow-") == "live" {
+				gone = errors.New("neighbour unreachable") // a crashed member of the assembly cannot answer
+			}
+		}
+		return false, gone
 	}
 	return false, nil
+}
+
+// undeploy: the process of this operator is gone; what answers at its address now is a registered, not yet deployed operator.
+func (s *slot) undeploy() {
+	if s.op != nil {
+		s.op = operator.NewOperator(operator.NewOperatorParams{ID: fmt.Sprintf("op-%d", s.idx), Host: "h"})
+	}
+}
+
+func rpcNeedsTable(remote *operator.Operator, uri string) (needed bool, err error) {
+	defer func() {
+		if r := recover(); r != nil {
+			needed, err = false, fmt.Errorf("rpc NeedsTable: connection closed by peer (remote handler panicked: %v)", r)
+		}
+	}()
+	return remote.HandleNeedsTable(uri), nil
 }
 
 // ------------------------------------------------------------------ observation
@@ -764,6 +805,7 @@ func (r *runner) emit(so stepOut) {
 				s.state = "crashed"
 				r.voidTasks(s)
 				s.db, s.waits = nil, nil
+			s.undeploy()
 				r.tag("abandoned-after-losing-a-table")
 				r.emit(stepOut{op: fmt.Sprintf("OCrash %d", s.idx)})
 			}
@@ -1038,6 +1080,9 @@ func (r *runner) restore(o opJ) error {
 	ownC := "OwnAll"
 	nbC := "NbNone"
 	s.ids[o.ID] = true
+	if sc := strings.TrimPrefix(o.Nb, "slow-"); src.state == "live" && (sc == "op" || sc == "live") {
+		o.Nb = "err" // a probe of the handle is not a member of the assembly
+	}
 	if o.Hi > 0 {
 		s.lo, s.hi = o.Lo, o.Hi
 		s.nb = &neighbour{w: w, owner: s, script: o.Nb}
@@ -1055,6 +1100,8 @@ func (r *runner) restore(o opJ) error {
 			nbC = "NbErr"
 		case "live":
 			nbC = "NbLive"
+		case "op":
+			nbC = "NbOp"
 		}
 		r.tag("own-range")
 		if o.Nb != "" {
@@ -1093,6 +1140,10 @@ func (r *runner) restore(o opJ) error {
 		return nil
 	}
 	w.slots = append(w.slots, s)
+	if s.nb != nil && strings.TrimPrefix(s.nb.script, "slow-") == "op" {
+		s.op = operator.NewOperator(operator.NewOperatorParams{ID: fmt.Sprintf("op-%d", s.idx), Host: "h"})
+		operator.VerifSetDB(s.op, s.db)
+	}
 	rot := s.db.VerifMemtableCount() - 1
 	if err := w.afterRotations(s, rot); err != nil {
 		return err
@@ -1126,6 +1177,7 @@ func (r *runner) restore(o opJ) error {
 		s.state = "crashed"
 		r.voidTasks(s)
 		s.db, s.waits = nil, nil
+			s.undeploy()
 		r.tag("restore-probe-while-source-lives")
 		r.emit(stepOut{op: fmt.Sprintf("OCrash %d", s.idx)})
 	}
@@ -1191,7 +1243,9 @@ func (r *runner) gc() stepOut {
 			case c := <-w.nbWait:
 				// a slow neighbour has been asked and has not answered: the files must still be there
 				for _, h := range w.observeHandles() {
-					so.during = append(so.during, h.Missing...)
+					if len(h.Missing) > 0 || !h.Present {
+						so.during = append(so.during, fname{int(h.ID), 9, 0}) // the id of a handle with missing files, encoded as a name
+					}
 				}
 				close(c.done)
 			default:
@@ -1307,6 +1361,21 @@ func execute(c *hx.Case) (*hx.Result, error) {
 			r.noteWork(s)
 			r.lastCkpt[s.idx] = append(r.lastCkpt[s.idx], o.ID)
 			s.ids[o.ID] = true
+			if lv := s.db.VerifLevelDocs(); len(lv) > 0 {
+				for i, l := range lv {
+					if len(l) == 0 {
+						continue
+					}
+					switch {
+					case i == len(lv)-1:
+						r.tag("ckpt-tables-in-base-level")
+					case i == 0:
+						r.tag("ckpt-tables-in-L0")
+					default:
+						r.tag("ckpt-tables-in-middle-level")
+					}
+				}
+			}
 			s.waits[o.ID] = s.db.Checkpoint(o.ID)
 			if err := w.expect(1); err != nil {
 				return fail(err)
@@ -1352,7 +1421,30 @@ func execute(c *hx.Case) (*hx.Result, error) {
 				}
 			}
 			if kept == 0 {
-				continue // RetainOnly panics when nothing is kept: the caller's ids must name a checkpoint of this database
+				// the update names no checkpoint of this database (a late update of an earlier generation): RetainOnly refuses it with
+				// a panic - and must leave the list and the pending removals exactly as they were
+				if o.Fail != 0 || len(s.ckpts) > 0 {
+					continue
+				}
+				var ro *readObs
+				func() {
+					defer func() {
+						if p := recover(); p != nil {
+							ro = &readObs{Outcome: 3, Msg: fmt.Sprint(p)}
+						}
+					}()
+					if err := s.db.UpdateRetainedCheckpoints(o.IDs); err != nil {
+						ro = &readObs{Outcome: 1, Msg: err.Error()}
+					}
+				}()
+				w.log.take()
+				ids := make([]string, len(o.IDs))
+				for i, id := range o.IDs {
+					ids[i] = fmt.Sprint(id)
+				}
+				r.tag("retain-refused")
+				r.emit(stepOut{op: fmt.Sprintf("ORetain %d %s", s.idx, hx.CoqList(ids, "N")), read: ro})
+				continue
 			}
 			var newest uint64
 			for _, k := range o.IDs {
@@ -1429,6 +1521,7 @@ func execute(c *hx.Case) (*hx.Result, error) {
 			s.state = "crashed"
 			r.voidTasks(s)
 			s.db, s.waits = nil, nil
+			s.undeploy()
 			r.tag("crash")
 			r.emit(stepOut{op: fmt.Sprintf("OCrash %d", s.idx)})
 		case "drop":
@@ -1446,7 +1539,7 @@ func execute(c *hx.Case) (*hx.Result, error) {
 				continue
 			}
 			s.state = "dropped"
-			s.db, s.waits = nil, nil
+			s.db, s.waits, s.op = nil, nil, nil
 			r.tag("drop")
 			r.emit(stepOut{op: fmt.Sprintf("ODrop %d", s.idx)})
 		case "gc":
@@ -1502,7 +1595,7 @@ func (r *runner) cleanup() {
 		if s.db != nil {
 			_ = s.db.WaitOnTasks()
 		}
-		s.db, s.waits = nil, nil
+		s.db, s.waits, s.op = nil, nil, nil
 	}
 	verifhook.Set(nil)
 	cur.Store(nil)
